@@ -55,7 +55,7 @@ func R1Explicit(c *Ctx, scope []*ssa.Function, ruleSuffix string) {
 					}
 				case *ssa.MapUpdate:
 					nMaps++
-					if mapNonNil(x.Map, map[ssa.Value]bool{}) || c.fieldMapMade(x.Map, in) {
+					if mapNonNil(x.Map, map[ssa.Value]bool{}) || c.fieldMapMade(x.Map, in) || c.paramMapMade(x.Map, 0) {
 						continue
 					}
 					emit(fn, in, "map update "+AccessPath(x.Map)+"[…] = …", "assignment to an entry of a map that is not provably non-nil (not made in this function): panics when the map is nil")
@@ -652,4 +652,31 @@ func ioLoop(pk *packages.Package, s *ast.ForStmt) bool {
 		return true
 	})
 	return ok
+}
+
+// paramMapMade: the map is a parameter of a helper that is only called statically, and every call site passes a map
+// that is provably non-nil there (made in the caller, or itself such a parameter).
+func (c *Ctx) paramMapMade(m ssa.Value, depth int) bool {
+	prm, ok := m.(*ssa.Parameter)
+	if !ok || depth > 2 {
+		return false
+	}
+	h := prm.Parent()
+	idx := -1
+	for i, q := range h.Params {
+		if q == prm {
+			idx = i
+		}
+	}
+	if idx < 0 {
+		return false
+	}
+	return c.EveryCallSite(h, func(site ssa.CallInstruction) bool {
+		args := site.Common().Args
+		if idx >= len(args) {
+			return false
+		}
+		a := args[idx]
+		return mapNonNil(a, map[ssa.Value]bool{}) || c.fieldMapMade(a, site.(ssa.Instruction)) || c.paramMapMade(a, depth+1)
+	})
 }
